@@ -12,14 +12,21 @@ import time
 import traceback
 
 HERE = os.path.dirname(os.path.dirname(os.path.abspath(__file__)))
-CONTRACT_MODULES = ['classes', 'rfc_spec', 'c_crypto', 'c_message', 'c_encode', 'c_message_bytes']
-TIMEOUT_MS = {'quick': 10000, 'thorough': 60000}
+CONTRACT_MODULES = ['classes', 'rfc_spec', 'c_crypto', 'c_message', 'c_encode', 'c_message_bytes', 'c_decode']
+TIMEOUT_MS = {'quick': 15000, 'thorough': 60000}
 
 _REPO = None
 
 
 def load_contracts():
-    for m in CONTRACT_MODULES:
+    """every module under /verif/contracts: declarations first, then the c_*.py files in name order
+    (files that extend contracts of other files come later in the alphabet: c_z*)"""
+    names = sorted(f[:-3] for f in os.listdir(os.path.join(HERE, 'contracts'))
+                   if f.endswith('.py') and f != '__init__.py')
+    first = [m for m in ('classes', 'rfc_spec') if m in names]
+    order = first + [m for m in CONTRACT_MODULES if m in names and m not in first]
+    order += [m for m in names if m not in order]
+    for m in order:
         importlib.import_module('contracts.' + m)
 
 
@@ -42,13 +49,29 @@ def worker(task):
     import z3
     t0 = time.time()
     out = {'func': fq, 'receiver': recv, 'results': [], 'error': None, 'info': {}}
+    # fresh-name numbering restarts per task: the formulas of a function do not depend on which
+    # other tasks the worker process handled before (reproducible solver behaviour)
+    import itertools
+    from . import vals as _vals
+    _vals._counter = itertools.count()
     try:
         fv = FunctionVerifier(_REPO)
-        obs, info = fv.verify(fq, recv)
-        fi = _REPO.funcs[fq]
-        c = C.CONTRACTS[fq]
-        out['info'] = dict(info, gen_s=time.time() - t0, alias_sites=[list(a) for a in fv.ex.alias_sites],
-                           func_kind='init' if fi.node.name == '__init__' else fi.kind)
+        if fq.startswith('lemma:'):
+            obs, info = fv.verify_lemma(fq[6:])
+
+            class fi:
+                cls = None
+                kind = 'lemma'
+
+            class c:
+                raises = {}
+            out['info'] = dict(info, gen_s=time.time() - t0, alias_sites=[], func_kind='lemma')
+        else:
+            obs, info = fv.verify(fq, recv)
+            fi = _REPO.funcs[fq]
+            c = C.CONTRACTS[fq]
+            out['info'] = dict(info, gen_s=time.time() - t0, alias_sites=[list(a) for a in fv.ex.alias_sites],
+                               func_kind='init' if fi.node.name == '__init__' else fi.kind)
         entry_env = fv.ex.entry.env if fv.ex.entry else {}
         for ob in obs:
             r = discharge(ob, timeout_ms)
@@ -83,6 +106,9 @@ def select_tasks(prop, C):
             continue
         for recv in (c.receivers or [None]):
             tasks.append((fq, recv))
+    for name, lm in C.LEMMAS.items():
+        if prop is None or prop in lm.props:
+            tasks.append(('lemma:' + name, None))
     return tasks
 
 
@@ -119,6 +145,9 @@ def main(argv):
     if args.func is not None:
         tasks = []
         for fq in args.func:
+            if fq.startswith('lemma:'):
+                tasks.append((fq, None))
+                continue
             c = C.CONTRACTS[fq]
             tasks += [(fq, r) for r in (c.receivers or [None])]
         outs = run_tasks(tasks, TIMEOUT_MS[args.tier], args.jobs)
